@@ -187,6 +187,8 @@ def model_code(run):
         code.append("$ESTIMATION METHOD=1 INTER MAXEVAL=9999" if tab["no"] == 1 else "$ESTIMATION METHOD=IMP INTER NITER=5")
     if 1 in run["ext"][-1]["codes"]:
         code.append("$COVARIANCE")
+    if "sdtab" in run:
+        code.append("$TABLE ID PRED RES NOAPPEND NOPRINT FILE=sdtab1")
     return "\n".join(code) + "\n"
 
 
@@ -245,12 +247,9 @@ def series_eq(ser, labels, values, outcome, what, rel=1e-12):
         want(close(ser[lab], v, rel), outcome, f"{what}: {lab} = {ser[lab]!r}, written {v!r}")
 
 
-def check_gen(case, d):
-    from pharmpy.model.external.nonmem.table import NONMEMTableFile
-
-    cols = ["ID", "TIME", "IPRED"]
+def write_gen(path, tabs, cols):
     out = []
-    for tab in case["tabs"]:
+    for tab in tabs:
         out.append(f"TABLE NO.{tab['no']:3d}\n")
         hdr = " " + "".join(f"{c:<12}" for c in cols).rstrip() + "\n"
         out.append(hdr)
@@ -258,8 +257,15 @@ def check_gen(case, d):
             out.append("".join(efmt(float(v), 12, 4) for v in row) + "\n")
             if r in tab["rep"]:
                 out.append(hdr)
-    path = d / "sdtab"
     path.write_text("".join(out))
+
+
+def check_gen(case, d):
+    from pharmpy.model.external.nonmem.table import NONMEMTableFile
+
+    cols = ["ID", "TIME", "IPRED"]
+    path = d / "sdtab"
+    write_gen(path, case["tabs"], cols)
     tf = NONMEMTableFile(path)
     want(len(tf) == len(case["tabs"]), "table_count", f"{len(tf)} tables read, {len(case['tabs'])} written")
     for t, tab in zip(tf, case["tabs"]):
@@ -434,6 +440,18 @@ def check_results(run, d, with_cor, nothing_checked):
         want(np.allclose(np.array([ses[n] for n in cnames]), D, rtol=1e-12), "se_relation", "standard errors != sqrt(diag(cov))")
     else:
         want(res.covariance_matrix is None, "covariance_unexpected", "a covariance matrix is reported although the covariance step did not complete")
+    # $TABLE output (a TLC table with repeated headers) -> predictions / residuals
+    if "sdtab" in run:
+        tab = run["sdtab"]
+        pred = res.predictions
+        want(pred is not None and list(pred.columns) == ["PRED"], "predictions_columns", f"predictions {None if pred is None else list(pred.columns)}")
+        want(len(pred) == tab["nrows"], "predictions_rows", f"{len(pred)} prediction rows, {tab['nrows']} records in the table file (repeated headers after rows {tab['rep']})")
+        for r, row in enumerate(tab["rows"]):
+            want(close(pred["PRED"].iloc[r], row[1]), "predictions", f"PRED of record {r + 1} = {pred['PRED'].iloc[r]!r}, written {row[1]}")
+        resid = res.residuals
+        if resid is not None:
+            exp = [row[2] for row in tab["rows"] if row[2] != 0]
+            want([float(x) for x in resid["RES"]] == [float(x) for x in exp], "residuals", f"RES {list(resid['RES'])} != non-zero residuals written {exp}")
     # individual estimates from the last .phi table
     phi = run["phi"][-1]["expected"]
     etan = list(model.random_variables.etas.names)
@@ -520,6 +538,8 @@ def run_case(arg):
             write_lst(d / "run1.lst", case)
             (d / "run1.mod").write_text(model_code(case))
             (d / "data.csv").write_text("ID,TIME,DV\n1,0,1\n3,0,2\n7,0,3\n")
+            if "sdtab" in case:
+                write_gen(d / "sdtab1", [dict(case["sdtab"], no=1)], ["ID", "PRED", "RES"])
             with_cor = False
             if 1 in last["codes"]:
                 import numpy as np
@@ -597,6 +617,9 @@ def main(tier: str, seed: int) -> int:
     import pharmpy.tools  # noqa: F401
 
     rng = random.Random(seed)
+    singles = [g["tabs"][0] for g in gens if len(g["tabs"]) == 1]
+    for r in runs:  # the $TABLE file of the run directory is one of TLC's single-table files
+        r["sdtab"] = rng.choice(singles)
     work = [("GEN", c, rng.randrange(1 << 30)) for c in gens] + [("RUN", c, rng.randrange(1 << 30)) for c in runs]
     for _, c, _ in work:
         if "cfg" in c:
